@@ -42,7 +42,7 @@ import time
 
 VERIF = os.path.dirname(os.path.dirname(os.path.abspath(__file__)))
 REPO = "/repo"
-TARGET = os.path.join(VERIF, ".target")
+TARGET = os.environ.get("HV_TARGET", os.path.join(VERIF, ".target"))
 WORK = os.path.join(VERIF, "work")
 ALLOWED_AXIOMS = {"propext", "Classical.choice", "Quot.sound"}
 FORBIDDEN = re.compile(r"\bsorry\b|\badmit\b|^\s*axiom\s|native_decide|bv_decide|implemented_by|\bunsafe\s|maxHeartbeats\s+0")
@@ -230,11 +230,13 @@ def lean_stage(spec, tier, ctx):
 def harness_build(spec, ctx):
     hdir = os.path.join(VERIF, "harness", spec["harness"])
     t = time.time()
-    rc, out, err = sh(["cargo", "build", "--release", "--bin", spec["bin"]], cwd=hdir, timeout=7200)
-    ctx["harness_build_s"] = round(time.time() - t, 1)
+    tdir = os.path.join(TARGET, spec["harness"])
+    rc, out, err = sh(["cargo", "build", "--release", "--bin", spec["bin"]], cwd=hdir, timeout=7200,
+                      env={"CARGO_TARGET_DIR": tdir})
+    ctx["harness_build_s"] = round(ctx.get("harness_build_s", 0) + time.time() - t, 1)
     if rc != 0:
         ctx["harness_errors"] = [l for l in err.splitlines() if l.startswith("error")][:10]
-    return rc == 0, os.path.join(TARGET, "release", spec["bin"])
+    return rc == 0, os.path.join(tdir, "release", spec["bin"])
 
 
 def run_harness(spec, binpath, outdir, seed, cases, tier, replay=None, extra=None):
@@ -326,11 +328,18 @@ def case_lines(outdir, case_no):
 # ----------------------------------------------------------------------------- known findings
 
 def known_findings(pid):
+    """known_findings.json plus one-file-per-finding drafts in known_findings.d/ (folded in at integration)"""
+    res = []
     p = os.path.join(VERIF, "known_findings.json")
-    if not os.path.exists(p):
-        return []
-    data = json.load(open(p))
-    return [f for f in data.get("findings", []) if f.get("property") == pid]
+    if os.path.exists(p):
+        res += json.load(open(p)).get("findings", [])
+    d = os.path.join(VERIF, "known_findings.d")
+    if os.path.isdir(d):
+        for f in sorted(os.listdir(d)):
+            if f.endswith(".json"):
+                x = json.load(open(os.path.join(d, f)))
+                res += x if isinstance(x, list) else [x]
+    return [f for f in res if f.get("property") == pid]
 
 
 def is_known(fail, kf):
@@ -403,82 +412,102 @@ def run_check(pid, tier, seed, replay=None):
 
     obligations = []       # (name, ok, detail)
     violations = []        # dicts
-    # 1. translation
-    if spec.get("translate"):
-        try:
-            obligations += [(f"translated table {n}", ok, d) for (n, ok, d) in spec["translate"](ctx)]
-        except Exception as ex:  # a parse failure of a translated fragment is a broken tie
-            obligations.append(("translation", False, f"translator failed: {ex!r}"))
-    # 2/3. lean
-    obligations += lean_stage(spec, tier, ctx)
-    lean_ok = all(ok for _, ok, _ in obligations)
-
-    # 4. harness
-    stats = {}
+    stats = {"cases": 0, "lines": 0, "prop_checks": 0, "prop_failures": 0,
+             "distinct_nontrivial": 0, "hist": {}, "samples": [], "rule": ""}
     mism = []
     pfails = []
     known_hits = []
-    corr_name = f"correspondence {spec['harness']}::{spec['mode']} vs {spec.get('driver')}"
     binpath = None
-    if spec.get("harness"):
-        with Lock("cargo"):
-            ok, binpath = harness_build(spec, ctx)
-        if not ok:
-            obligations.append((corr_name, False, "harness does not build against /repo: " + "; ".join(ctx.get("harness_errors", []))))
-        else:
-            runs = []
-            # corpus first
-            cdir = os.path.join(VERIF, "corpus", pid)
-            if os.path.isdir(cdir):
-                for cf in sorted(os.listdir(cdir)):
-                    if cf.endswith(".case"):
-                        runs.append(("corpus:" + cf, os.path.join(cdir, cf)))
-            runs.append(("generated", None))
-            total_stats = {"cases": 0, "lines": 0, "prop_checks": 0, "prop_failures": 0,
-                           "distinct_nontrivial": 0, "hist": {}, "samples": [], "rule": ""}
-            for name, rp in runs:
-                od = os.path.join(wd, name.replace(":", "_").replace("/", "_"))
-                n = spec.get("cases", {}).get(tier, 200)
-                rc, out, err = run_harness(spec, binpath, od, seed, n, tier, replay=rp)
-                if rc != 0:
-                    obligations.append((corr_name, False, f"harness run {name} failed rc={rc}: {(err or out).strip()[-300:]}"))
-                    continue
-                st = json.load(open(os.path.join(od, "stats.json")))
-                for k in ("cases", "lines", "prop_checks", "prop_failures", "distinct_nontrivial"):
-                    total_stats[k] += st.get(k, 0)
-                for k, v in st.get("hist", {}).items():
-                    total_stats["hist"][k] = total_stats["hist"].get(k, 0) + v
-                total_stats["samples"] += st.get("samples", [])[:3]
-                total_stats["rule"] = st.get("rule", total_stats["rule"])
-                for pf in read_prop_failures(od):
-                    pf["run"] = name
-                    pf["outdir"] = od
-                    k = is_known(pf, kf)
-                    if k:
-                        known_hits.append((k, pf))
-                    else:
-                        pfails.append(pf)
-                if spec.get("driver") and lean_ok:
-                    rc, derr = run_driver(spec, od)
+    top = spec
+    parts = spec.get("parts") or [spec]
+    ctx["theorems_all"] = []
+    ctx["axioms_all"] = {}
+    for pi, part in enumerate(parts):
+        part = dict(part)
+        for k in ("harness_timeout", "driver_timeout"):
+            if k in top and k not in part:
+                part[k] = top[k]
+        pctx = ctx
+        # 1. translation
+        if part.get("translate"):
+            try:
+                obligations += [(f"translated table {n}", ok, d) for (n, ok, d) in part["translate"](ctx)]
+            except Exception as ex:  # a parse failure of a translated fragment is a broken tie
+                obligations.append(("translation", False, f"translator failed: {ex!r}"))
+        # 2/3. lean
+        n_before = len(obligations)
+        if part.get("props_module"):
+            obligations += lean_stage(part, tier, ctx)
+            ctx["theorems_all"] += ctx.get("theorems", [])
+            ctx["axioms_all"].update(ctx.get("axioms", {}))
+        lean_ok = all(ok for _, ok, _ in obligations[n_before:])
+        # 4. harness
+        if part.get("harness"):
+            corr_name = f"correspondence {part['harness']}::{part['mode']} vs {part.get('driver')}"
+            with Lock("cargo_" + part["harness"]):
+                ok, binpath = harness_build(part, ctx)
+            part["_bin"] = binpath
+            if not ok:
+                obligations.append((corr_name, False, "harness does not build against /repo: " + "; ".join(ctx.get("harness_errors", []))))
+            else:
+                runs = []
+                cdir = os.path.join(VERIF, "corpus", pid)
+                if os.path.isdir(cdir):
+                    for cf in sorted(os.listdir(cdir)):
+                        if cf.endswith(".case") and (len(parts) == 1 or cf.startswith(part["mode"] + "_")):
+                            runs.append(("corpus:" + cf, os.path.join(cdir, cf)))
+                runs.append(("generated", None))
+                part_mism = []
+                failed_run = False
+                for name, rp in runs:
+                    od = os.path.join(wd, f"p{pi}_" + name.replace(":", "_").replace("/", "_"))
+                    n = part.get("cases", {}).get(tier, 200)
+                    rc, out, err = run_harness(part, binpath, od, seed, n, tier, replay=rp)
                     if rc != 0:
-                        obligations.append((corr_name, False, f"model driver failed rc={rc}: {derr[-200:]}"))
+                        obligations.append((corr_name, False, f"harness run {name} failed rc={rc}: {(err or out).strip()[-300:]}"))
+                        failed_run = True
                         continue
-                    mm, _, _, _ = diff_outputs(od)
-                    for m in mm:
-                        m["run"] = name
-                        m["outdir"] = od
-                    mism += mm
-            stats = total_stats
-            if not any(n == corr_name for n, _, _ in obligations):
-                obligations.append((corr_name, not mism,
-                                    f"{stats['cases']} cases / {stats['lines']} op lines, {len(mism)} disagreeing cases"))
-    # extra python-level stage
-    if spec.get("extra"):
-        ctx["binpath"] = binpath
-        for (n, ok, d, rl) in spec["extra"](ctx):
-            obligations.append((n, ok, d))
-            if not ok and rl is not None:
-                pfails.append({"case": "extra", "sig": n, "detail": d, "lines": rl, "run": "extra", "outdir": wd})
+                    st = json.load(open(os.path.join(od, "stats.json")))
+                    for k in ("cases", "lines", "prop_checks", "prop_failures", "distinct_nontrivial"):
+                        stats[k] += st.get(k, 0)
+                    for k, v in st.get("hist", {}).items():
+                        stats["hist"][k] = stats["hist"].get(k, 0) + v
+                    stats["samples"] += st.get("samples", [])[:3]
+                    stats["rule"] = (stats["rule"] + " || " if stats["rule"] and st.get("rule") and st.get("rule") not in stats["rule"] else stats["rule"]) + (st.get("rule", "") if st.get("rule", "") not in stats["rule"] else "")
+                    for pf in read_prop_failures(od):
+                        pf["run"] = name
+                        pf["outdir"] = od
+                        pf["part"] = part
+                        k = is_known(pf, kf)
+                        if k:
+                            known_hits.append((k, pf))
+                        else:
+                            pfails.append(pf)
+                    if part.get("driver") and lean_ok:
+                        rc, derr = run_driver(part, od)
+                        if rc != 0:
+                            obligations.append((corr_name, False, f"model driver failed rc={rc}: {derr[-200:]}"))
+                            failed_run = True
+                            continue
+                        mm, _, _, _ = diff_outputs(od)
+                        for m in mm:
+                            m["run"] = name
+                            m["outdir"] = od
+                        part_mism += mm
+                if not failed_run:
+                    obligations.append((corr_name, not part_mism,
+                                        f"{stats['cases']} cases / {stats['lines']} op lines so far, {len(part_mism)} disagreeing cases"))
+                mism += part_mism
+        # extra python-level stage
+        if part.get("extra"):
+            ctx["binpath"] = binpath
+            ctx["part"] = part
+            for (n, ok, d, rl) in part["extra"](ctx):
+                obligations.append((n, ok, d))
+                if not ok and rl is not None:
+                    pfails.append({"case": "extra", "sig": n, "detail": d, "lines": rl, "run": "extra", "outdir": wd, "part": part})
+    ctx["theorems"] = ctx["theorems_all"]
+    ctx["axioms"] = ctx["axioms_all"]
 
     # 6. verdict
     broken = [(n, d) for (n, ok, d) in obligations if not ok]
@@ -495,34 +524,42 @@ def run_check(pid, tier, seed, replay=None):
         rc_final = 1
         replay_path = None
         tail = ""
-        if not pfails and binpath and spec.get("harness"):
+        if not pfails:
             # search: more seeds / more cases for a property failure on the real code
             log("broken obligation without failing input: searching (property oracle on the real code)…")
-            n = spec.get("cases", {}).get("thorough", 2000)
-            for s2 in (seed + 1, seed + 2, seed + 3):
-                od = os.path.join(wd, f"search_{s2}")
-                rc, _, _ = run_harness(spec, binpath, od, s2, n, "thorough")
-                if rc != 0:
+            for pi, part in enumerate(parts):
+                if not part.get("harness") or not part.get("_bin"):
                     continue
-                for pf in read_prop_failures(od):
-                    if not is_known(pf, kf):
-                        pf["run"] = f"search seed={s2}"
-                        pf["outdir"] = od
-                        pfails.append(pf)
+                n = part.get("cases", {}).get("thorough", 2000)
+                n = min(n, part.get("search_cases", n))
+                for s2 in (seed + 1, seed + 2, seed + 3):
+                    od = os.path.join(wd, f"search_p{pi}_{s2}")
+                    rc, _, _ = run_harness(part, part["_bin"], od, s2, n, "thorough")
+                    if rc != 0:
+                        continue
+                    for pf in read_prop_failures(od):
+                        if not is_known(pf, kf):
+                            pf["run"] = f"search seed={s2}"
+                            pf["outdir"] = od
+                            pf["part"] = part
+                            pfails.append(pf)
+                    if pfails:
+                        break
                 if pfails:
                     break
         if pfails:
             pf = pfails[0]
             lines = pf.get("lines") or case_lines(pf["outdir"], pf["case"])
             full = list(lines)
-            if binpath and lines and pf.get("run") != "extra":
+            if lines and pf.get("run") != "extra" and pf.get("part", {}).get("_bin"):
                 try:
-                    lines = shrink_case(spec, binpath, lines, pf["sig"], wd)
+                    lines = shrink_case(pf["part"], pf["part"]["_bin"], lines, pf["sig"], wd)
                 except Exception as ex:
                     log(f"shrink failed: {ex!r}")
             replay_path = write_replay(pid, "failing_input", {
                 "property": pid, "kind": "failing-input", "engine": "lean4-proof+correspondence",
                 "seed": seed, "tier": tier, "oracle_signature": pf["sig"], "detail": pf.get("detail", ""),
+                "part_mode": pf.get("part", {}).get("mode"),
                 "case": lines, "unshrunk_case": full,
                 "broken_obligations": [{"name": n, "detail": d} for n, d in broken],
                 "disagreements": [{k: m[k] for k in ("case", "first_line", "impl", "model") if k in m} for m in mism[:5]],
@@ -556,7 +593,7 @@ def run_check(pid, tier, seed, replay=None):
         "property_id": pid, "tier": tier, "seed": seed, "level": spec.get("level", "proof"),
         "coverage": {
             "obligations": n_ob, "discharged": n_ok,
-            "checker_cmd": f"cd lean/{spec['lean_project']} && lake build {spec['props_module']} && lake env lean <#print axioms of each theorem>" + (" && lake env leanchecker " + spec["props_module"] if tier == "thorough" else ""),
+            "checker_cmd": " ; ".join(f"cd lean/{p['lean_project']} && lake build {p['props_module']} && lake env lean <#print axioms of each theorem>" + (" && lake env leanchecker " + p["props_module"] if tier == "thorough" else "") for p in parts if p.get("props_module")) or "(no Lean part)",
             "trusted_base": GLOBAL_TRUSTED + spec.get("trusted_base", []),
             "obligation_list": [{"name": n, "ok": ok, "detail": d[:200]} for n, ok, d in obligations],
             "theorems": ctx.get("theorems", []),
@@ -590,11 +627,18 @@ def run_check(pid, tier, seed, replay=None):
 def run_replay(spec, pid, replay, ctx, kf):
     """re-run exactly the case of a replay file on implementation and model"""
     wd = ctx["work"]
+    data = {}
     if replay.endswith(".json"):
         data = json.load(open(replay))
         lines = data.get("case", [])
     else:
         lines = open(replay).read().splitlines()
+    parts = spec.get("parts") or [spec]
+    cand = [p for p in parts if p.get("harness") and (not data.get("part_mode") or p.get("mode") == data.get("part_mode"))]
+    if not cand:
+        print("no harness part to replay on")
+        return 1
+    spec = cand[0]
     if not lines:
         print("replay file holds no case lines (broken-obligation replay): " +
               json.dumps(json.load(open(replay)).get("broken_obligations", []))[:500])
@@ -603,7 +647,7 @@ def run_replay(spec, pid, replay, ctx, kf):
     with open(rp, "w") as f:
         f.write("\n".join(lines) + "\n")
     lean_stage(spec, "quick", ctx)
-    with Lock("cargo"):
+    with Lock("cargo_" + spec["harness"]):
         ok, binpath = harness_build(spec, ctx)
     if not ok:
         print("harness does not build")
